@@ -32,13 +32,33 @@ def yaml_rules(root: str, fname: str) -> List[dict]:
     return out
 
 
-def rule_fields_tested(node, rulevar: str = "rule") -> Set[str]:
-    """rule.<field> names that occur in a test expression (if / boolean) under ``node``."""
+def rule_vars(node) -> Set[str]:
+    """Variables that hold a taint rule, found by role: targets of loops over a rule collection (`<x>.all_sources`, `<x>.all_sinks`,
+    `<x>.all_*`) or over a local list such variables were appended to."""
+    rv: Set[str] = set()
+    lists: Set[str] = set()
+    for _ in range(3):
+        for n in ast.walk(node):
+            if isinstance(n, (ast.For, ast.comprehension)) and isinstance(n.target, ast.Name):
+                it = n.iter
+                if isinstance(it, ast.Attribute) and it.attr.startswith("all_"):
+                    rv.add(n.target.id)
+                if isinstance(it, ast.Name) and it.id in lists:
+                    rv.add(n.target.id)
+            if isinstance(n, ast.Call) and isinstance(n.func, ast.Attribute) and n.func.attr == "append" and isinstance(n.func.value, ast.Name) \
+                    and n.args and isinstance(n.args[0], ast.Name) and n.args[0].id in rv:
+                lists.add(n.func.value.id)
+    return rv
+
+
+def rule_fields_tested(node, rulevar: str = None) -> Set[str]:
+    """<rule variable>.<field> names that occur in a test expression (if / boolean) under ``node``."""
     out = set()
+    rvs = {rulevar} if rulevar else rule_vars(node)
     for n in ast.walk(node):
         if isinstance(n, (ast.If, ast.IfExp, ast.While)):
             for x in ast.walk(n.test):
-                if isinstance(x, ast.Attribute) and isinstance(x.value, ast.Name) and x.value.id == rulevar:
+                if isinstance(x, ast.Attribute) and isinstance(x.value, ast.Name) and x.value.id in rvs:
                     out.add(x.attr)
     return out
 
@@ -50,7 +70,7 @@ def accept_functions(applier) -> Dict[str, Tuple[Func, str, str]]:
         coll = None
         for n in walk_no_nested(f.node):
             if isinstance(n, ast.For) and isinstance(n.iter, ast.Attribute) and n.iter.attr in ("all_sources", "all_sinks") \
-                    and isinstance(n.target, ast.Name) and n.target.id == "rule":
+                    and isinstance(n.target, ast.Name):
                 coll = n.iter.attr
         if coll is None or f.name.startswith("get_"):
             continue
@@ -60,7 +80,8 @@ def accept_functions(applier) -> Dict[str, Tuple[Func, str, str]]:
                 kind = const_str(n.comparators[0]) or kind
         if kind is None:
             for n in walk_no_nested(f.node):
-                if isinstance(n, ast.Compare) and dotted(n.left) == "rule.operation" and isinstance(n.ops[0], (ast.NotEq, ast.Eq)):
+                if isinstance(n, ast.Compare) and isinstance(n.left, ast.Attribute) and n.left.attr == "operation" and isinstance(n.left.value, ast.Name) \
+                        and n.left.value.id in rule_vars(f.node) and isinstance(n.ops[0], (ast.NotEq, ast.Eq)):
                     kind = const_str(n.comparators[0]) or kind
         out[f.name] = (f, coll, kind)
     return out
@@ -92,7 +113,7 @@ def run(model: RepoModel, rep, tier: str):
     # ------------------------------------------------------------------ R1
     cfg = cfg_of(ff.node)
     appends = [n for n in cfg.g.nodes for c in cfg.calls_at(n) if isinstance(c.func, ast.Attribute) and c.func.attr in ("append", "extend", "add")
-               and isinstance(c.func.value, ast.Name) and "flow" in c.func.value.id]
+               and isinstance(c.func.value, ast.Name)]
     rets = [n for n in walk_no_nested(ff.node) if isinstance(n, ast.Return) and n.value is not None]
     result_var = rets[-1].value.id if rets and isinstance(rets[-1].value, ast.Name) else None
     appends = [n for n in appends if any(isinstance(c.func, ast.Attribute) and isinstance(c.func.value, ast.Name) and c.func.value.id == result_var
@@ -104,7 +125,7 @@ def run(model: RepoModel, rep, tier: str):
     src_var = src_loop[0].target.id if src_loop else None
     snk_var = snk_loop[0].target.id if snk_loop else None
     for an in appends:
-        key = f"{TA}::TaintAnalysis.find_flows::{norm(cfg.stmt[an])}"
+        key = f"{TA}::TaintAnalysis.find_flows::`{norm(cfg.stmt[an])}`"
         probs = []
         guards = [(t, lab) for t, lab in cfg.controlling_branches(an) if isinstance(t, ast.If)]
         g = None
@@ -145,10 +166,12 @@ def run(model: RepoModel, rep, tier: str):
     key = f"{TA}::PathFinder.reconstruct_define_use_path::flow endpoints"
     if rec is None:
         raise AnalysisError("reconstruct_define_use_path vanished")
-    ends = {dotted(n.targets[0]): dotted(n.value) for n in walk_no_nested(rec.node) if isinstance(n, ast.Assign) and dotted(n.targets[0] or "")
-            and (dotted(n.targets[0]) or "").startswith("flow.")}
+    # the flow object by role: what the function returns
+    flow_vars = {n.value.id for n in walk_no_nested(rec.node) if isinstance(n, ast.Return) and isinstance(n.value, ast.Name)} or {"flow"}
+    ends = {n.targets[0].attr: dotted(n.value) for n in walk_no_nested(rec.node) if isinstance(n, ast.Assign) and isinstance(n.targets[0], ast.Attribute)
+            and isinstance(n.targets[0].value, ast.Name) and n.targets[0].value.id in flow_vars}
     p1, p2 = rec.params[1], rec.params[2]
-    if ends.get("flow.source_stmt_id") == f"{p1}.def_stmt_id" and ends.get("flow.sink_stmt_id") == f"{p2}.def_stmt_id":
+    if ends.get("source_stmt_id") == f"{p1}.def_stmt_id" and ends.get("sink_stmt_id") == f"{p2}.def_stmt_id":
         rep.holds("C11.R1", key, TA, rec.node.lineno, "flow.source_stmt_id/sink_stmt_id are the defining statements of the tested nodes")
     else:
         rep.violation("C11.R1", key, TA, rec.node.lineno, f"the reported endpoints are {ends}, not the source's and sink's statements")
@@ -202,7 +225,13 @@ def run(model: RepoModel, rep, tier: str):
 
     # ------------------------------------------------------------------ R3
     gcfg = cfg_of(gs.node)
-    tloops = [n for n in gcfg.g.nodes if gcfg.kind[n] == "iter" and isinstance(gcfg.stmt[n].target, ast.Name) and gcfg.stmt[n].target.id == "target"]
+    # the loop over a rule's targets: iterates `<rule variable>.target`
+    _rv = rule_vars(gs.node)
+    def _is_rule_target(e) -> bool:
+        return any(isinstance(x, ast.Attribute) and x.attr == "target" and isinstance(x.value, ast.Name) and x.value.id in _rv for x in ast.walk(e))
+    _tlists = {n.targets[0].id for n in walk_no_nested(gs.node) if isinstance(n, ast.Assign) and isinstance(n.targets[0], ast.Name) and _is_rule_target(n.value)}
+    tloops = [n for n in gcfg.g.nodes if gcfg.kind[n] == "iter" and isinstance(gcfg.stmt[n].target, ast.Name)
+              and (_is_rule_target(gcfg.stmt[n].iter) or isinstance(gcfg.stmt[n].iter, ast.Name) and gcfg.stmt[n].iter.id in _tlists)]
     if not tloops:
         rep.unknown("C11.R3", f"{TA}::get_sink_tag_by_rules::target loop", TA, gs.node.lineno, "loop over rule targets not recognised")
     for tl in tloops:
@@ -307,8 +336,8 @@ def run(model: RepoModel, rep, tier: str):
                               f"matches statements in files/lines it excludes")
     # language restriction
     key = f"{TA}::rule.lang consulted"
-    lang_used = any(isinstance(n, ast.Attribute) and n.attr == "lang" and isinstance(n.value, ast.Name) and "rule" in n.value.id
-                    for n in ast.walk(m.tree))
+    lang_used = any(isinstance(n, ast.Attribute) and n.attr == "lang" and isinstance(n.value, ast.Name) and n.value.id in rule_vars(fn_.node)
+                    for fn_ in m.all_funcs() for n in ast.walk(fn_.node))
     rm = model.module("taint/rule_manager.py")
     lang_filtered_at_load = any(isinstance(n, ast.Compare) and any(isinstance(x, ast.Name) and x.id == "lang" for x in ast.walk(n))
                                 for n in ast.walk(rm.tree))
@@ -319,9 +348,12 @@ def run(model: RepoModel, rep, tier: str):
                       "every shipped rule group carries `lang`, RuleManager stores it in Rule.lang, but no matcher in taint_analysis.py (nor "
                       "RuleManager) ever compares it with the analysed unit's language: a java/go rule selects python statements")
     # tag computation filters like the acceptance
+    _op_vars = {n.targets[0].id for n in walk_no_nested(gs.node) if isinstance(n, ast.Assign) and isinstance(n.targets[0], ast.Name)
+                and isinstance(n.value, ast.Attribute) and (n.value.attr == "operation" or n.value.attr == "name" and isinstance(n.value.value, ast.Name)
+                                                            and n.value.value.id in gs.params)} or {"operation"}
     branches: Dict[str, ast.If] = {}
     for n in walk_no_nested(gs.node):
-        if isinstance(n, ast.If) and isinstance(n.test, ast.Compare) and isinstance(n.test.left, ast.Name) and n.test.left.id == "operation":
+        if isinstance(n, ast.If) and isinstance(n.test, ast.Compare) and isinstance(n.test.left, ast.Name) and n.test.left.id in _op_vars:
             k = const_str(n.test.comparators[0])
             if k and k not in branches:
                 branches[k] = n
@@ -400,9 +432,9 @@ MUTANTS = [
     ("guard-removed", TA, _m("stmt", "TaintAnalysis", "find_flows",
                              lambda st: isinstance(st, ast.If) and isinstance(st.test, ast.Compare) and isinstance(st.test.left, ast.BinOp),
                              "flow = self.path_finder.reconstruct_define_use_path(source, sink)\nflow.vuln_type = vuln_type\nflow_list.append(flow)"),
-     "find_flows::flow_list.append"),
+     "find_flows::`flow_list.append"),
     ("guard-or", TA, _m("expr", "TaintAnalysis", "find_flows", lambda e: isinstance(e, ast.BinOp) and isinstance(e.op, ast.BitAnd), "sink_tag | tag"),
-     "find_flows::flow_list.append"),
+     "find_flows::`flow_list.append"),
     ("env-hoisted", TA, _m("del", "TaintAnalysis", "find_flows",
                            lambda st: isinstance(st, ast.Assign) and isinstance(st.value, ast.Call) and call_name(st.value) == "TaintEnv"),
      "fresh TaintEnv"),
@@ -420,7 +452,7 @@ MUTANTS = [
      "apply_parameter_source_rules::consults rule.unit_name"),
     ("wrong-pair-reconstructed", TA, _m("expr", "TaintAnalysis", "find_flows",
                                         lambda e: isinstance(e, ast.Call) and (call_name(e) or "").endswith("reconstruct_define_use_path"),
-                                        "self.path_finder.reconstruct_define_use_path(sources[0], sink)"), "find_flows::flow_list.append"),
+                                        "self.path_finder.reconstruct_define_use_path(sources[0], sink)"), "find_flows::`flow_list.append"),
     ("run-all-nodes-as-sinks", TA, _m("expr", "TaintAnalysis", "run",
                                       lambda e: isinstance(e, ast.Call) and is_self_attr(e.func, "find_sinks"), "list(self.sfg.nodes)"),
      "TaintAnalysis.run"),
